@@ -126,7 +126,8 @@ pub fn parse_info_strict(line: &str) -> Option<Info> {
     let mut pv = vec![];
     while i < t.len() && t[i] != "depth" {
         let m = t[i].as_bytes();
-        if m.len() != 4 || !(b'a'..=b'h').contains(&m[0]) || !(b'1'..=b'8').contains(&m[1]) || !(b'a'..=b'h').contains(&m[2]) || !(b'1'..=b'8').contains(&m[3]) {
+        // long algebraic; a promotion letter is proper UCI (the engine as shipped omits it)
+        if (m.len() != 4 && m.len() != 5) || !(b'a'..=b'h').contains(&m[0]) || !(b'1'..=b'8').contains(&m[1]) || !(b'a'..=b'h').contains(&m[2]) || !(b'1'..=b'8').contains(&m[3]) || (m.len() == 5 && !b"qrbn".contains(&m[4])) {
             return None;
         }
         pv.push(t[i].to_string());
@@ -197,7 +198,12 @@ pub fn check_info_lines(lines: &[String], root: &Pos) -> Option<(String, String)
         }
         let first = &inf.pv[0];
         let (f, t) = (r::parse_sq(&first[0..2]).unwrap(), r::parse_sq(&first[2..4]).unwrap());
-        if !legal.iter().any(|m| m.from == f && m.to == t) {
+        let ok = match Mv::parse(first) {
+            // with a promotion letter the whole move must be legal; without one, from/to
+            Some(mv) if mv.promo != 0 => legal.contains(&mv),
+            _ => legal.iter().any(|m| m.from == f && m.to == t),
+        };
+        if !ok {
             return Some(("first-pv-move-illegal".into(), format!("{:?} in {}", l, root.fen())));
         }
         if let Some(p) = &prev {
